@@ -57,6 +57,10 @@ def gen_world(rng, fmt=None, apdep=None, n_models=(1, 8), n_ap=(1, 5), n_wav=(5,
     w['flux_unit'] = rng.choice(['mJy', 'mJy', 'Jy', 'ergs/cm^2/s', 'erg/s']) if w['dtype'] == 'f8' else 'mJy'
     if w['format'] == 2 and w['dtype'] == 'f8':
         w['flux_unit'] = rng.choice(['mJy', 'Jy'])         # cubes hold flux densities
+    # per-file SEDs: the error column carries its own unit, which need not be the flux column's
+    w['err_unit'] = rng.choice(['mJy', 'Jy', 'ergs/cm^2/s']) if (w['dtype'] == 'f8' and rng.random() < 0.3) else None
+    # a model on another wavelength grid may share the number of points and both end points with the others
+    w['mixed_kind'] = rng.choice(['different', 'same_ends'])
     w['ext_n'] = rng.choice([3, 8, 40])
     # units in which the user states aperture radii and the distance range (any angle / length unit is legal)
     w['ap_unit'] = rng.choice(['arcsec', 'arcsec', 'arcmin', 'deg', 'mas'])
@@ -112,6 +116,15 @@ class World(object):
             i = spec['mixed']
             n2 = max(2, nw + int(g.integers(-2, 3)))
             w2 = grid(n2)
+            if spec.get('mixed_kind') == 'same_ends' and nw >= 3:
+                # same number of points, same first and last wavelength, other interior sampling
+                n2 = nw
+                t = g.uniform(0.2, 0.8, nw - 2)
+                inner = self.wav[:-2] ** (1 - t) * self.wav[2:] ** t if nw > 3 else np.array([self.wav[0] ** 0.3 * self.wav[-1] ** 0.7])
+                inner = np.sort(np.clip(inner, self.wav[0] * 1.001, self.wav[-1] / 1.001))[:nw - 2]
+                w2 = _round(np.concatenate([[self.wav[0]], inner, [self.wav[-1]]]), dt)
+                if len(set(w2.tolist())) != nw or np.min(w2[1:] / w2[:-1]) <= 1.0005:
+                    w2 = grid(nw)
             v2 = _round(10 ** g.uniform(0, 2, (1, n2)) * np.cumsum(g.uniform(0.2, 1, (na, 1)), axis=0), dt)
             u2 = _round(v2 * g.uniform(0.001, 0.05, v2.shape), dt)
             self.sed[i] = (w2, v2, u2)
@@ -239,7 +252,7 @@ class World(object):
                     sub = os.path.join(sub, nm[:spec['subdir']])
                     os.makedirs(sub, exist_ok=True)
                 write_sed_file(os.path.join(sub, nm + '_sed' + ext), nm, w, self.aps, v, e, dtype=self.dtype,
-                               unit=spec.get('flux_unit', 'mJy'))
+                               unit=spec.get('flux_unit', 'mJy'), err_unit=spec.get('err_unit'))
             self.write_params(d, self.perm if perm is None else perm, gz=gz)
         else:
             w, v, e = self.wav, self.val, self.unc
@@ -274,9 +287,10 @@ def _from_mjy(a, unit, wav, distance_cm):
     raise ValueError(unit)
 
 
-def write_sed_file(path, name, wav, aps, flux, err, dtype='f8', unit='mJy', distance_cm=KPC_CM):
+def write_sed_file(path, name, wav, aps, flux, err, dtype='f8', unit='mJy', distance_cm=KPC_CM, err_unit=None):
+    err_unit = err_unit or unit
     flux = _from_mjy(flux, unit, wav, distance_cm)
-    err = _from_mjy(err, unit, wav, distance_cm)
+    err = _from_mjy(err, err_unit, wav, distance_cm)
     h0 = fits.PrimaryHDU()
     h0.header['MODEL'] = name
     h0.header['DISTANCE'] = distance_cm
@@ -294,7 +308,7 @@ def write_sed_file(path, name, wav, aps, flux, err, dtype='f8', unit='mJy', dist
     n = len(wav)
     f = ('%d' % n) + fc
     h3 = fits.BinTableHDU.from_columns([fits.Column(name='TOTAL_FLUX', format=f, array=np.asarray(flux), unit=unit),
-                                        fits.Column(name='TOTAL_FLUX_ERR', format=f, array=np.asarray(err), unit=unit)])
+                                        fits.Column(name='TOTAL_FLUX_ERR', format=f, array=np.asarray(err), unit=err_unit)])
     h3.name = 'SEDS'
     fits.HDUList([h0, h1, h2, h3]).writeto(path, overwrite=True)
 
